@@ -317,6 +317,19 @@ def run(run):
         run.check("R4", len(rr) == 1 and norm(rr[0].value) == f"self.{fld}", f"{prop} getter", key=f"SignerVersion.{prop}|getter", where=pf.loc(),
                   message=f"SignerVersion.{prop} does not return self.{fld}")
     _signapp_operations(run, PV)
+    # `message` writes / prints the authorization of the image and iteration given, not of an existing file (rule R1 of C19, prefix M.)
+    from . import c19
+    run.rid_prefix = "M."
+    try:
+        c19.signapp_message_rule(run, PV, "R1")
+    finally:
+        run.rid_prefix = ""
+    # the text shown to the operator for signing elsewhere is the message itself, control characters escaped
+    ep = P.func("admin.ledger_utils.eth_message_to_printable")
+    rv_ = {_strip(x) for x in return_values(A, ep, None, PV)}
+    run.check("R4", rv_ == {_strip(f"repr({ep.params[0]}.decode('ascii'))[1:-1]")}, "the printable form of the message is its repr without the quotes", key="eth_message_to_printable|expr",
+              where=ep.loc(), message=f"eth_message_to_printable returns {sorted(rv_)[:2]}; expected repr(msg.decode('ascii'))[1:-1]: the text the operator is given to sign "
+              "(with another tool) would not be the Ethereum personal message whose digest signapp and the device use")
 
 
 def _signapp_operations(run, PV):
